@@ -1430,7 +1430,13 @@ impl DbInner {
 
 	fn shutdown(&self) {
 		self.shutdown.store(true, Ordering::SeqCst);
-		self.log_queue_wait.cv.notify_one();
+		{
+			// `process_commits` tests the flag and then waits while holding this mutex.
+			// Notifying without it could slip in between the test and the wait and be lost,
+			// leaving the log worker (and the `join` in `drop`) blocked for ever.
+			let _log_queue = self.log_queue_wait.work.lock();
+			self.log_queue_wait.cv.notify_one();
+		}
 		self.flush_worker_wait.signal();
 		self.log_worker_wait.signal();
 		self.commit_worker_wait.signal();
